@@ -496,7 +496,7 @@ static unsigned long long rng;
 static unsigned rnd (void) { rng ^= rng << 13; rng ^= rng >> 7; rng ^= rng << 17; return (unsigned) (rng >> 11); }
 static int run_random (long runs, unsigned seed, const char *init, const char *violdir, const char *prop) {
 	long r, viols = 0, steps_total = 0, nontriv = 0;
-	for (r = 0; r < runs; r++) {
+	for (r = 0; r < runs && viols < 40; r++) {     /* forty failing runs are enough (a livelock makes every run slow) */
 		char *sched = NULL; size_t sl = 0; FILE *sf = open_memstream (&sched, &sl);
 		long guard = 0;
 		int i, maxdl; long starve_from;
@@ -544,7 +544,7 @@ static int run_random (long runs, unsigned seed, const char *init, const char *v
 		free (sched);
 		if (guard > 20) nontriv++;
 	}
-	printf ("STATS tours=%ld steps=%ld matched=%ld diverged=0 mismatches=0 violations=%ld nontrivial=%ld\n", runs, steps_total, runs - viols, viols, nontriv);
+	printf ("STATS tours=%ld steps=%ld matched=%ld diverged=0 mismatches=0 violations=%ld nontrivial=%ld\n", r, steps_total, r - viols, viols, nontriv);
 	return viols ? 1 : 0;
 }
 
